@@ -15,9 +15,9 @@ from protolib import *
 
 KEY_BUS = "bus-nonblock-send-eagain"
 KEY_RESP = "respondent-nb-send-eagain"
-KEY_PLB = "pollable-getfd-clear-race"
+PLB_TEXT = ("pollable.c nni_pollable_getfd: a complete nni_pollable_clear of another thread between its load of p_raised and its write leaves the "
+            "descriptor readable with the flag down, and the next clear does not drain it (wb_c15 `window clear`)")
 KNOWN_TEXT = {
-    KEY_PLB: "pollable.c nni_pollable_getfd loads p_raised once after publishing the new descriptor: a complete nni_pollable_clear of another thread between that load and the write leaves the descriptor readable with the flag down, and the next clear does not drain it (wb_c15 `window clear` => fd=1 flag=0)",
     KEY_BUS: "bus.c bus0_sock_send: NONBLOCK send returns NNG_EAGAIN although the send descriptor is raised and a blocking send succeeds at once",
     KEY_RESP: "respond.c resp0_ctx_send calls nni_aio_start first: NONBLOCK send returns NNG_EAGAIN with the pipe idle (descriptor raised), and the descriptor it cleared stays down although a blocking send succeeds at once",
 }
@@ -540,7 +540,7 @@ def run(tier, seed, replay=None):
         cases = [[l.strip() for l in open(replay) if l.strip() and not l.startswith("#")]]
         by_proto = {cases[0][0].split()[2]: cases}
     else:
-        per = int(os.environ.get("C15_PER", "0")) or (40 if tier == "quick" else 1500)
+        per = int(os.environ.get("C15_PER", "0")) or (40 if tier == "quick" else 4500)
         by_proto = {}
         for c in load_corpus("C15"):
             by_proto.setdefault(c[0].split()[2], []).append(c)
@@ -654,7 +654,7 @@ def run(tier, seed, replay=None):
                 m = re.match(r"window fd=(\d) flag=(\d)(?: after-clear fd=(\d))?$", l)
                 if not m or m.group(1) != m.group(2) or (m.group(3) is not None and m.group(3) != "0"):
                     p = rep.replay_file("pollable_window.case", "# %s\n# harness/wb_c15.c: a complete nni_pollable_clear between getfd's load of p_raised and its write\nwindow clear\n" % l)
-                    rep.violation(p, KNOWN_TEXT[KEY_PLB] + " -- observed: " + l, key=KEY_PLB)
+                    rep.violation(p, PLB_TEXT + " -- observed: " + l)
                     break
             if wout != wmod and not rep.violations:
                 p = rep.replay_file("pollable_window_diverge.txt", "impl  %s\nmodel %s\n" % (wout, wmod))
